@@ -12,16 +12,20 @@
 package main
 
 import (
+	"context"
 	"encoding/json"
 	"fmt"
 	"io"
 	"math"
 	"math/rand"
+	"net/http/httptest"
 	"sort"
 	"strconv"
 	"strings"
+	"time"
 	"unicode/utf8"
 
+	controllerv1 "github.com/metrico/qryn/reader/controller"
 	"github.com/metrico/qryn/reader/logql/logql_transpiler_v2/shared"
 	"github.com/metrico/qryn/reader/model"
 	"github.com/metrico/qryn/reader/service"
@@ -44,6 +48,7 @@ type Case struct {
 	Kind    string    `json:"kind"`
 	Class   string    `json:"class"`
 	Batches [][]Entry `json:"batches"`
+	Items   []string  `json:"items"` // list kinds: hex strings (tag names, label values, stored label documents)
 	Out     string    `json:"out"`   // hex of the concatenated chunks
 	GoValid bool      `json:"valid"` // encoding/json.Valid(out)
 	GoRows  string    `json:"gorows"` // "ok" | "skip:<why>" | "diff:<what>"  (encoding/json parse compared with the rows)
@@ -307,6 +312,201 @@ func runStreams(c *Case) string {
 		}
 	}()
 	return sb.String()
+}
+
+// ---------------------------------------------------------------------------------- list kinds
+
+var listKinds = map[string]bool{"tags": true, "tagvalues": true, "labels": true, "series": true}
+
+func genStoredDoc(r *rand.Rand) (string, bool) {
+	m := genLabels(r)
+	switch r.Intn(12) {
+	case 0: // what the writer's encodeLabels stores (strconv.Quote): not JSON when a byte needs \x
+		ks := make([]string, 0, len(m))
+		for k := range m {
+			ks = append(ks, k)
+		}
+		sort.Strings(ks)
+		var parts []string
+		for _, k := range ks {
+			parts = append(parts, strconv.Quote(k)+":"+strconv.Quote(m[k]))
+		}
+		return "{" + strings.Join(parts, ",") + "}", true
+	case 1:
+		return []string{"", "{", "nul", "{\"a\":1}{}", "[1,2]", " {\"a\" : \"b\"} "}[r.Intn(6)], true
+	}
+	for k, v := range m { // stored documents are valid UTF-8 JSON in the good case
+		if !utf8.ValidString(k) || !utf8.ValidString(v) {
+			delete(m, k)
+		}
+	}
+	b, _ := json.Marshal(m)
+	return string(b), false
+}
+
+func genListCase(r *rand.Rand, id int, kind string) Case {
+	c := Case{ID: id, Kind: kind}
+	n := 0
+	switch r.Intn(8) {
+	case 0:
+		n, c.Class = 0, "empty"
+	case 1, 2:
+		n, c.Class = 1, "one"
+	default:
+		n, c.Class = 2+r.Intn(6), "many"
+	}
+	odd := false
+	for i := 0; i < n; i++ {
+		if kind == "series" {
+			d, o := genStoredDoc(r)
+			odd = odd || o
+			c.Items = append(c.Items, hx.Hex(d))
+		} else if r.Intn(3) == 0 {
+			c.Items = append(c.Items, hx.Hex(genKey(r)))
+		} else {
+			c.Items = append(c.Items, hx.Hex(genBytes(r)))
+		}
+	}
+	if odd {
+		c.Class += "+oddstored"
+	}
+	return c
+}
+
+type fakeTempo struct{ items []string }
+
+func (f *fakeTempo) feed() (chan string, error) {
+	ch := make(chan string)
+	go func() {
+		defer close(ch)
+		for _, it := range f.items {
+			ch <- it
+		}
+	}()
+	return ch, nil
+}
+func (f *fakeTempo) Query(ctx context.Context, startNS int64, endNS int64, traceId []byte, binIds bool) (chan *model.SpanResponse, error) {
+	return nil, fmt.Errorf("not scripted")
+}
+func (f *fakeTempo) Tags(ctx context.Context) (chan string, error)               { return f.feed() }
+func (f *fakeTempo) Values(ctx context.Context, tag string) (chan string, error) { return f.feed() }
+func (f *fakeTempo) ValuesV2(ctx context.Context, key string, query string, from time.Time, to time.Time, limit int) (chan string, error) {
+	return f.feed()
+}
+func (f *fakeTempo) Search(ctx context.Context, tags string, minDurationNS int64, maxDurationNS int64, limit int, fromNS int64, toNS int64) (chan *model.TraceResponse, error) {
+	return nil, fmt.Errorf("not scripted")
+}
+func (f *fakeTempo) SearchTraceQL(ctx context.Context, q string, limit int, from time.Time, to time.Time) (chan []model.TraceInfo, error) {
+	return nil, fmt.Errorf("not scripted")
+}
+func (f *fakeTempo) TagsV2(ctx context.Context, query string, from time.Time, to time.Time, limit int) (chan string, error) {
+	return f.feed()
+}
+
+func runList(c *Case) string {
+	items := make([]string, len(c.Items))
+	for i, it := range c.Items {
+		items[i] = hx.UnHex(it)
+	}
+	switch c.Kind {
+	case "tags", "tagvalues":
+		ctl := &controllerv1.TempoController{Service: &fakeTempo{items: items}}
+		w := httptest.NewRecorder()
+		if c.Kind == "tags" {
+			ctl.Tags(w, httptest.NewRequest("GET", "/api/search/tags", nil))
+		} else {
+			ctl.Values(w, httptest.NewRequest("GET", "/api/search/tag/x/values", nil))
+		}
+		return w.Body.String()
+	case "labels", "series":
+		reg := newRegistry(items)
+		defer dropRegistry(reg)
+		svc := service.NewQueryLabelsService(&model.ServiceData{Session: reg})
+		var ch chan string
+		var err error
+		if c.Kind == "labels" {
+			ch, err = svc.GenericLabelReq(context.Background(), "SELECT DISTINCT key FROM time_series_gin")
+		} else {
+			ch, err = svc.Series(context.Background(), []string{`{job="a"}`}, 0, 1700000000000, 1)
+		}
+		if err != nil {
+			panic(err)
+		}
+		var sb strings.Builder
+		for str := range ch {
+			sb.WriteString(str)
+		}
+		return sb.String()
+	}
+	panic("unknown list kind " + c.Kind)
+}
+
+// goList: parse the body with encoding/json and compare with the items
+func goList(c *Case, body string) string {
+	var items []string
+	for _, it := range c.Items {
+		items = append(items, hx.UnHex(it))
+	}
+	var got []interface{}
+	switch c.Kind {
+	case "tags":
+		var v struct {
+			TagNames []interface{} `json:"tagNames"`
+		}
+		if err := json.Unmarshal([]byte(body), &v); err != nil {
+			return "diff:decode: " + err.Error()
+		}
+		got = v.TagNames
+	case "tagvalues":
+		var v struct {
+			TagValues []interface{} `json:"tagValues"`
+		}
+		if err := json.Unmarshal([]byte(body), &v); err != nil {
+			return "diff:decode: " + err.Error()
+		}
+		got = v.TagValues
+	default:
+		var v struct {
+			Status string        `json:"status"`
+			Data   []interface{} `json:"data"`
+		}
+		if err := json.Unmarshal([]byte(body), &v); err != nil {
+			if c.Kind == "series" {
+				for _, it := range items {
+					if !json.Valid([]byte(it)) {
+						return "skip:stored document is not JSON"
+					}
+				}
+			}
+			return "diff:decode: " + err.Error()
+		}
+		if v.Status != "success" {
+			return "diff:status"
+		}
+		got = v.Data
+	}
+	if len(got) != len(items) {
+		return fmt.Sprintf("diff:%d elements, want %d", len(got), len(items))
+	}
+	for i, it := range items {
+		if c.Kind == "series" {
+			var want interface{}
+			if err := json.Unmarshal([]byte(it), &want); err != nil {
+				return "skip:stored document is not JSON"
+			}
+			a, _ := json.Marshal(want)
+			b, _ := json.Marshal(got[i])
+			if string(a) != string(b) {
+				return fmt.Sprintf("diff:element %d", i)
+			}
+			continue
+		}
+		s, ok := got[i].(string)
+		if !ok || s != strings.ToValidUTF8(it, "\uFFFD") && utf8.ValidString(it) {
+			return fmt.Sprintf("diff:element %d", i)
+		}
+	}
+	return "ok"
 }
 
 // ---------------------------------------------------------------------------------- observations
@@ -644,6 +844,14 @@ func fillFloatTexts(c *Case) {
 }
 
 func run(c *Case) {
+	if listKinds[c.Kind] {
+		var body string
+		c.Panic = hx.Catch(func() { body = runList(c) })
+		c.Out = hx.Hex(body)
+		c.GoValid = json.Valid([]byte(body))
+		c.GoRows = goList(c, body)
+		return
+	}
 	// inputs arrive with sorted labels; normalise in case a replay file carries observed orders
 	for bi := range c.Batches {
 		for ei := range c.Batches[bi] {
@@ -691,7 +899,13 @@ func main() {
 	}
 	r := hx.Rand(f.Seed)
 	for i := 0; i < f.N; i++ {
-		c := genCase(r, i, "streams")
+		var c Case
+		switch k := i % 10; {
+		case k < 6:
+			c = genCase(r, i, "streams")
+		default:
+			c = genListCase(r, i, []string{"tags", "tagvalues", "labels", "series"}[k-6])
+		}
 		run(&c)
 		out.Put(c)
 	}
